@@ -14,9 +14,10 @@ One Lean function per Python function, same statement order.  The values of the 
 (`delta*`, `rnd*`) are inputs.  The digest is a parameter `H` (MD5 is not modelled).
 
 `Cfg` carries two switches that say which code is modelled; `Cfg.pinned` is the tree as it is:
-* `flushAtProve`: `prove()` flushes the equation file before reading it back (pinned: no);
+* `flushAtProve`: `prove()` flushes the equation file before reading it back (pinned: yes; it did not
+  before the fix recorded as C12-unflushed-tail);
 * `unitCoeff`: `vc_declare_block.ensure_single` accepts a one-term linear combination only when its
-  coefficient is 1 (pinned: any coefficient).
+  coefficient is 1 (pinned: yes; any coefficient before the fix recorded as C12-glue-coefficient).
 -/
 namespace Pysnark.Qaptools
 open Pysnark.QapEq
@@ -31,9 +32,9 @@ structure Cfg where
   unitCoeff : Bool
 deriving Repr, DecidableEq
 
-/-- the tree as it is: `prove()` does not flush the equation file, `ensure_single` does not look at
-the coefficient -/
-def Cfg.pinned (p : Int) : Cfg := ⟨p, false, false⟩
+/-- the tree as it is: `prove()` flushes the equation file before reading it back, `ensure_single`
+accepts a one-term linear combination only with coefficient one -/
+def Cfg.pinned (p : Int) : Cfg := ⟨p, true, true⟩
 
 /-- `Sig.__str__`: `" ".join(str(c)+" "+v …)`; the empty list prints as the empty token -/
 def Sig.toks (s : Sig) : List Tok :=
